@@ -270,6 +270,20 @@ fn hostile_messages(tier: Tier) -> Vec<(String, Vec<u8>)> {
             out.push((format!("bomb:{name}x{n}"), didl(&[&body[..], &leb::enc_u64(n)[..]].concat())));
         }
     }
+    // values of a future type (opcode < -24: `leb(m) leb(refs) m bytes`), skipped as surplus argument, at reserved
+    // and under a mismatching opt: every small byte count against every way the remaining input can fall short
+    for m in 0u8..=4 {
+        for refs in [&[0x00u8][..], &[0x01], &[0x80, 0x00], &[0x80, 0x80, 0x00], &[0xff, 0x7f], &[0x80]] {
+            for pay in 0..=(m as usize + 1) {
+                let mut v = vec![m];
+                v.extend(refs);
+                v.extend(vec![0xaau8; pay]);
+                out.push((format!("future-value m={m} refs={} payload={pay}", hex(refs)), didl(&[&[0x01, 0x67, 0x00, 0x01, 0x00][..], &v[..]].concat())));
+                // followed by a second, ordinary argument (the decoder continues after the skipped value)
+                out.push((format!("future-value+nat8 m={m} refs={} payload={pay}", hex(refs)), didl(&[&[0x01, 0x67, 0x00, 0x02, 0x00, 0x7b][..], &v[..], &[0x07]].concat())));
+            }
+        }
+    }
     // recursive tables without progress
     out.push(("table:record-self".into(), didl(&[0x01, 0x6c, 0x01, 0x00, 0x00, 0x01, 0x00])));
     out.push(("table:opt-self".into(), didl(&[0x01, 0x6e, 0x00, 0x01, 0x00, 0x01, 0x01, 0x01, 0x01, 0x00])));
@@ -278,6 +292,26 @@ fn hostile_messages(tier: Tier) -> Vec<(String, Vec<u8>)> {
     // nesting depth in the type table and in the value
     let depths: Vec<usize> = if tier == Tier::Quick { vec![1, 10, 100, 1000, 5000, 20000] } else { vec![1, 2, 10, 50, 100, 500, 1000, 2000, 5000, 9999, 10000, 20000] };
     for d in depths {
+        // chains of records / variants in the table only (the value of a record chain has no bytes, a
+        // variant chain needs one index byte per level): table processing must be stack-safe on its own
+        for (name, op) in [("record", 0x6cu8), ("variant", 0x6b)] {
+            let mut t = leb::enc_u64(d as u64);
+            for i in 0..d {
+                t.push(op);
+                if i + 1 < d {
+                    // one field, id 0, of the next entry
+                    t.extend([0x01, 0x00]);
+                    t.extend(leb::enc_i64((i + 1) as i64));
+                } else if op == 0x6c {
+                    t.push(0x00); // record {}
+                } else {
+                    t.extend([0x01, 0x00, 0x7f]); // variant { 0 : null }
+                }
+            }
+            t.extend([0x01, 0x00]);
+            let v = if op == 0x6c { vec![] } else { vec![0x00u8; d] };
+            out.push((format!("nest:{name}-chain depth={d}"), didl(&[&t[..], &v[..]].concat())));
+        }
         for (name, op) in [("opt", 0x6eu8), ("vec", 0x6d)] {
             // chain of d entries: entry i = op(i+1), last = op(null)
             let mut t = leb::enc_u64(d as u64);
@@ -727,7 +761,7 @@ pub fn run(tier: Tier, replay: Option<&str>, rest: &[String]) -> i32 {
     finish(
         &ctx,
         rep,
-        "inputs: all byte strings DIDL+s with |s|<=2 (thorough 3) over all 256 bytes and |s|<=4 (thorough 5) over a 24-byte alphabet of opcodes/counts/flags; every 1-byte deviation of valid messages of a small scope; hostile families (huge and over-long LEB128 counts at every count position of header and values, zero-sized element bombs up to 2^32-1 elements, vectors of every fixed-width element type and texts whose byte size count x width lies within 32 bytes of 2^63 and 2^64, recursive tables without progress, nesting depth 1..20000 of opt/vec chains in the table and of recursive values) on 256 KiB / 1 MiB / 8 MiB stacks; each input x 20 native targets (incl. Vec of 2-, 4- and 8-byte numbers) + 4 untyped targets x 8-10 decoder configurations (quotas none/0/1/10/100/10000, skipping quota, full_error_message, max_type_len), in checked and release builds. Oracle: every call returns Ok or Err (a panic or a dead worker process is a violation, bisected to the input); under a decoding quota q peak allocation <= 4 MiB + 64*|input| + 64*q (counting global allocator); no progress while the worker consumes 20 s of CPU time is non-termination; checked and release agree on the outcome digest. Non-trivial = calls that returned Ok.",
+        "inputs: all byte strings DIDL+s with |s|<=2 (thorough 3) over all 256 bytes and |s|<=4 (thorough 5) over a 24-byte alphabet of opcodes/counts/flags; every 1-byte deviation of valid messages of a small scope; hostile families (huge and over-long LEB128 counts at every count position of header and values, zero-sized element bombs up to 2^32-1 elements, vectors of every fixed-width element type and texts whose byte size count x width lies within 32 bytes of 2^63 and 2^64, recursive tables without progress, future-typed values with every small byte count against every shortfall of the remaining input, nesting depth 1..20000 of opt/vec/record/variant chains in the table and of recursive values) on 256 KiB / 1 MiB / 8 MiB stacks; each input x 20 native targets (incl. Vec of 2-, 4- and 8-byte numbers) + 4 untyped targets x 8-10 decoder configurations (quotas none/0/1/10/100/10000, skipping quota, full_error_message, max_type_len), in checked and release builds. Oracle: every call returns Ok or Err (a panic or a dead worker process is a violation, bisected to the input); under a decoding quota q peak allocation <= 4 MiB + 64*|input| + 64*q (counting global allocator); no progress while the worker consumes 20 s of CPU time is non-termination; checked and release agree on the outcome digest. Non-trivial = calls that returned Ok.",
         &["work proportional to the quota is decided through allocation and termination, not timing", "unmetered runs of explicit element bombs are restricted to 1000 elements"],
         json!({}),
     )
